@@ -161,13 +161,72 @@ type fakeMsg struct {
 	desc *fakeMsgDesc
 	data []byte
 	set  bool
+	// string fields by position in desc.fields (REST binding harnesses)
+	fvals [fakeMaxFields]string
+	fset  [fakeMaxFields]bool
+}
+
+const fakeMaxFields = 2
+
+func (m *fakeMsg) fieldIndex(fd protoreflect.FieldDescriptor) int {
+	ff, ok := fd.(*fakeField)
+	if !ok || m.desc == nil {
+		return -1
+	}
+	for i, f := range m.desc.fields.list {
+		if f == ff && i < fakeMaxFields {
+			return i
+		}
+	}
+	return -1
+}
+
+func (m *fakeMsg) Get(fd protoreflect.FieldDescriptor) protoreflect.Value {
+	i := m.fieldIndex(fd)
+	if i < 0 {
+		panic("fakeMsg.Get: unknown field")
+	}
+	return protoreflect.ValueOfString(m.fvals[i])
+}
+
+func (m *fakeMsg) Set(fd protoreflect.FieldDescriptor, v protoreflect.Value) {
+	i := m.fieldIndex(fd)
+	if i < 0 {
+		panic("fakeMsg.Set: unknown field")
+	}
+	m.fvals[i] = v.String()
+	m.fset[i] = true
+}
+
+func (m *fakeMsg) Has(fd protoreflect.FieldDescriptor) bool {
+	i := m.fieldIndex(fd)
+	return i >= 0 && m.fset[i]
+}
+
+func (m *fakeMsg) anyField() bool {
+	any := false
+	for _, s := range m.fset {
+		any = any || s
+	}
+	return any
 }
 
 func (m *fakeMsg) ProtoReflect() protoreflect.Message                                { return m }
 func (m *fakeMsg) Interface() protoreflect.ProtoMessage                              { return m }
 func (m *fakeMsg) Descriptor() protoreflect.MessageDescriptor                        { return m.desc }
 func (m *fakeMsg) IsValid() bool                                                     { return m != nil }
-func (m *fakeMsg) Range(func(protoreflect.FieldDescriptor, protoreflect.Value) bool) {}
+func (m *fakeMsg) Range(f func(protoreflect.FieldDescriptor, protoreflect.Value) bool) {
+	if m.desc == nil {
+		return
+	}
+	for i, fd := range m.desc.fields.list {
+		if i < fakeMaxFields && m.fset[i] {
+			if !f(fd, protoreflect.ValueOfString(m.fvals[i])) {
+				return
+			}
+		}
+	}
+}
 
 type fakeMsgType struct {
 	protoreflect.MessageType
@@ -179,8 +238,18 @@ func (t *fakeMsgType) Descriptor() protoreflect.MessageDescriptor { return t.des
 
 // fakeResolver resolves every message name to a fake type (or fails as configured).
 type fakeResolver struct {
-	mode int // 0 = found, 1 = NotFound, 2 = other error
-	seen []string
+	mode  int // 0 = found, 1 = NotFound, 2 = other error
+	seen  []string
+	known map[string]*fakeMsgDesc // descriptors of the service's own messages (so that message fields resolve)
+}
+
+func resolverFor(svc *fakeService) *fakeResolver {
+	r := &fakeResolver{known: map[string]*fakeMsgDesc{}}
+	for _, m := range svc.methods.list {
+		r.known[m.in.name] = m.in
+		r.known[m.out.name] = m.out
+	}
+	return r
 }
 
 var errFakeResolver = errors.New("fake resolver failure")
@@ -192,6 +261,9 @@ func (r *fakeResolver) FindMessageByName(name protoreflect.FullName) (protorefle
 		return nil, protoregistry.NotFound
 	case 2:
 		return nil, errFakeResolver
+	}
+	if d, ok := r.known[string(name)]; ok {
+		return &fakeMsgType{desc: d}, nil
 	}
 	return &fakeMsgType{desc: newFakeMsgDesc(string(name))}, nil
 }
@@ -220,6 +292,7 @@ type toyCodec struct {
 	failMarshal bool
 	log         *[]string
 	repeat      int // text form writes every byte this many times (a codec whose re-encoded form is much larger)
+	fields      bool // messages are carried as their string fields (REST binding harnesses) instead of abstract bytes
 }
 
 func (c *toyCodec) rep() int {
@@ -244,6 +317,9 @@ func (c *toyCodec) MarshalAppend(base []byte, msg proto.Message) ([]byte, error)
 			}
 		}
 	}
+	if c.fields {
+		return toyAppendFields(c.text, base, fm), nil
+	}
 	if !c.text {
 		return append(base, fm.data...), nil
 	}
@@ -266,6 +342,14 @@ func (c *toyCodec) Unmarshal(data []byte, msg proto.Message) error {
 		return errToyDecode
 	}
 	fm.set = true
+	fm.fvals, fm.fset = [fakeMaxFields]string{}, [fakeMaxFields]bool{}
+	fm.data = nil
+	if c.fields {
+		if ok, isFields := toyParseFields(c.text, data, fm); !ok || !isFields {
+			return errToyDecode
+		}
+		return nil
+	}
 	if !c.text {
 		fm.data = append([]byte(nil), data...)
 		return nil
@@ -530,12 +614,13 @@ type fakeConfig struct {
 	failMarshal bool
 	decompCount *int
 	jsonRepeat  int
+	fieldsMode  bool
 }
 
 func toyCodecOption(name string, text bool, cfg *fakeConfig) TranscoderOption {
 	return transcoderOptionFunc(func(opts *transcoderOptions) {
 		opts.codecs[name] = func(TypeResolver) Codec {
-			c := &toyCodec{name: name, text: text, failMarshal: cfg.failMarshal}
+			c := &toyCodec{name: name, text: text, failMarshal: cfg.failMarshal, fields: cfg.fieldsMode}
 			if text {
 				c.repeat = cfg.jsonRepeat
 			}
@@ -558,7 +643,7 @@ func toyCompressionOption(cfg *fakeConfig) TranscoderOption {
 // newFakeTranscoder builds a real Transcoder through NewTranscoder for one fake service.
 func newFakeTranscoder(svc *fakeService, handler http.Handler, cfg *fakeConfig, rules []*annotations.HttpRule, unknown http.Handler) (*Transcoder, error) {
 	svcOpts := []ServiceOption{
-		WithTypeResolver(&fakeResolver{}),
+		WithTypeResolver(resolverFor(svc)),
 		WithTargetProtocols(cfg.protocols...),
 		WithTargetCodecs(cfg.codecs...),
 		WithTargetCompression(cfg.compressors...),
@@ -614,3 +699,56 @@ func verifModel_google_golang_org_protobuf_proto_Unmarshal(b []byte, m proto.Mes
 }
 
 // floating point (REST X-Server-Timeout) is outside the encoding: a recorded cut when the value is symbolic
+
+// Field section of the toy encodings: binary 0xF1 (idx len value)*, text "{" 0x01 (idx len value)* "}".
+const toyFieldMarkBin, toyFieldMarkText = 0xF1, 0x01
+
+func toyAppendFields(text bool, base []byte, fm *fakeMsg) []byte {
+	if text {
+		base = append(base, '{', toyFieldMarkText)
+	} else {
+		base = append(base, toyFieldMarkBin)
+	}
+	for i := 0; i < fakeMaxFields; i++ {
+		if fm.fset[i] {
+			base = append(base, byte(i), byte(len(fm.fvals[i])))
+			base = append(base, fm.fvals[i]...)
+		}
+	}
+	if text {
+		base = append(base, '}')
+	}
+	return base
+}
+
+func toyParseFields(text bool, data []byte, fm *fakeMsg) (ok bool, isFields bool) {
+	body := data
+	if text {
+		if len(data) < 3 || data[0] != '{' || data[1] != toyFieldMarkText || data[len(data)-1] != '}' {
+			return false, false
+		}
+		body = data[2 : len(data)-1]
+	} else {
+		if len(data) < 1 || data[0] != toyFieldMarkBin {
+			return false, false
+		}
+		body = data[1:]
+	}
+	for len(body) > 0 {
+		if len(body) < 2 || int(body[0]) >= fakeMaxFields || len(body)-2 < int(body[1]) {
+			return false, true
+		}
+		i, n := int(body[0]), int(body[1])
+		fm.fvals[i] = string(body[2 : 2+n])
+		fm.fset[i] = true
+		body = body[2+n:]
+	}
+	return true, true
+}
+
+// refToyFields decodes the field section (reference for oracles).
+func refToyFields(text bool, data []byte) (vals [fakeMaxFields]string, set [fakeMaxFields]bool, ok bool) {
+	var fm fakeMsg
+	ok2, isF := toyParseFields(text, data, &fm)
+	return fm.fvals, fm.fset, ok2 && isF
+}
